@@ -59,9 +59,24 @@ pub fn eval_node<F: FnMut(&GraphColoredVertices, &str)>(
     // canonical version of the current formula and canonized mappings of its domains
     let canonized_formula_with_domains = (canonized_form.clone(), canonical_domains.clone());
 
-    if eval_context
-        .duplicates
-        .contains_key(&canonized_formula_with_domains)
+    // The result of a sub-formula also depends on the (restricted) domains of the variables that are
+    // in scope but do not occur in it, because such a sub-formula is evaluated on a graph with a smaller
+    // unit set. The cache key does not reflect these domains, so inside such scopes the cache must not
+    // be used. Wild-card propositions are the exception: they are always taken from the cache (and
+    // restricted to the unit set of the current graph below).
+    let in_foreign_restricted_scope = eval_context
+        .free_var_domains
+        .iter()
+        .any(|(variable, domain)| domain.is_some() && !renaming.contains_key(variable));
+    let is_wild_card = matches!(
+        node.node_type,
+        NodeType::Terminal(Atomic::WildCardProp(_))
+    );
+
+    if (is_wild_card || !in_foreign_restricted_scope)
+        && eval_context
+            .duplicates
+            .contains_key(&canonized_formula_with_domains)
     {
         if eval_context
             .cache
@@ -82,7 +97,9 @@ pub fn eval_node<F: FnMut(&GraphColoredVertices, &str)>(
                 .clone();
 
             // if we already visited all of the duplicates, lets delete the cached value
-            if eval_context.duplicates[&canonized_formula_with_domains] == 0 {
+            // (wild-card sets are never deleted: when the cache is bypassed for a duplicate sub-formula,
+            // the wild-cards inside it are evaluated more often than the duplicate counters anticipate)
+            if !is_wild_card && eval_context.duplicates[&canonized_formula_with_domains] == 0 {
                 eval_context
                     .duplicates
                     .remove(&canonized_formula_with_domains);
@@ -98,7 +115,8 @@ pub fn eval_node<F: FnMut(&GraphColoredVertices, &str)>(
                 let var_curr = reverse_renaming.get(var_canon).unwrap();
                 result = substitute_hctl_var(graph, &result, var_res, var_curr);
             }
-            return result;
+            // the graph might have a restricted unit set (inside a domain-restricted scope)
+            return result.intersect(graph.unit_colored_vertices());
         } else {
             // if the cache does not contain result for this subformula, set insert flag
             save_to_cache = true;
